@@ -3,7 +3,7 @@
    true sizes or the write is refused, parse-write-parse for arbitrary parsable bytes.
    Built on the C06 reader facts (Proofs/CmapParseProofs.v) and the C08 byte-level lemmas
    (Proofs/CmapWriteProofs.v); neither is changed. *)
-From AV Require Import Base.Prelude Base.Lemmas Gen.CmapPrefs Model.MacRoman Model.Cmap Model.CmapSpec
+From AV Require Import Base.Prelude Base.Lemmas Gen.CmapPrefs Gen.GlyfCmapShapes Model.MacRoman Model.Cmap Model.CmapSpec
   Model.CmapSubset Model.CmapWrite Proofs.CmapProofs Proofs.CmapParseProofs Proofs.CmapWriteProofs.
 Require Import ZifyBool.
 Ltac Zify.zify_post_hook ::= Z.div_mod_to_equations.
@@ -75,15 +75,15 @@ Proof. intros H. unfold fit_u32. replace ((0 <=? v) && (v <=? 4294967295)) with 
 Lemma calc_new_ok n r : calc_new n = Ok r -> r = n /\ 0 <= n <= 32767.
 Proof.
   unfold calc_new. intros H. destruct (fit_u16 n) as [v| | |] eqn:E; cbn [bind] in H; try discriminate.
-  apply fit_u16_ok in E. destruct E as [-> E]. destruct (32767 <? n) eqn:E2; [discriminate|]. inversion H. lia.
+  apply fit_u16_ok in E. destruct E as [-> E]. change cmw_max_segments with 32767 in H. destruct (32767 <? n) eqn:E2; [discriminate|]. inversion H. lia.
 Qed.
 Lemma calc_new_in n : 0 <= n <= 32767 -> calc_new n = Ok n.
-Proof. intros H. unfold calc_new. rewrite fit_u16_in by lia. cbn [bind]. replace (32767 <? n) with false by lia. reflexivity. Qed.
+Proof. intros H. unfold calc_new. rewrite fit_u16_in by lia. cbn [bind]. change cmw_max_segments with 32767. replace (32767 <? n) with false by lia. reflexivity. Qed.
 Lemma calc_new_out n : ~ (0 <= n <= 32767) -> calc_new n = Err BadValue.
 Proof.
   intros H. unfold calc_new. destruct (Z_le_dec 0 n) as [H0|H0]; [|rewrite fit_u16_out by lia; reflexivity].
   destruct (Z_le_dec n 65535); [|rewrite fit_u16_out by lia; reflexivity].
-  rewrite fit_u16_in by lia. cbn [bind]. replace (32767 <? n) with true by lia. reflexivity.
+  rewrite fit_u16_in by lia. cbn [bind]. change cmw_max_segments with 32767. replace (32767 <? n) with true by lia. reflexivity.
 Qed.
 
 Lemma field16_at (pre : list Z) v rest off :
